@@ -44,6 +44,20 @@ def escapeStd (s : Str) : Str :=
         (replaceChar '<' "&lt;".toList
           (replaceChar '&' "&amp;".toList s))))
 
+/-- A value that reaches an output expression: its text and whether it is `Markup` (has `__html__`). -/
+structure Val where
+  markup : Bool
+  text : Str
+  deriving DecidableEq, Repr
+
+/-- `escape(value)` as Jinja's autoescaping / `Markup.format` / `Markup.__add__` call it: a function of the text and
+the is-Markup flag ONLY — Markup is returned as it is, anything else goes through the replace chain.  There is no
+other input: no cache, no memo, nothing that an earlier call (with an equal text of the other kind) could leave behind. -/
+def escapeVal (v : Val) : Str := if v.markup then v.text else escape v.text
+
+/-- A whole generator run as far as escaping is concerned: the values in the order they are escaped. -/
+def escapeRun (vs : List Val) : List Str := vs.map escapeVal
+
 /-- What `escape` does to one character. -/
 def escChar (c : Char) : Str :=
   if c = '&' then "&amp;".toList else if c = '>' then "&gt;".toList else if c = '<' then "&lt;".toList
